@@ -179,6 +179,8 @@ def gen_program(tape, feat):
                 # "spawn the workers and return" / "reap the sibling and return": the call and the caller's own completion
                 # fall in the same pass of the scheduler
                 st["then_ret"] = tape.flag("then_ret", 1, 4)
+                # the same doer named twice in one call (the quantifier's "duplicates")
+                st["dup"] = bool(feat.get("dup_args")) and tape.flag("dup_arg", 1, 6)
             steps.append(st)
             if a in ("ret", "raise_", "kbint", "forever") or st.get("then_ret"):
                 break
@@ -412,6 +414,9 @@ def _wake(run, nid, tyme):
         for i in fresh:
             _set_parent(run, i, sched)
         arg = (present + objs) if step["mix"] == 0 else (objs + present)
+        if step.get("dup") and objs:
+            arg = arg + [objs[0]]
+            run.fault("extend_names_a_new_doer_twice")
         run.fault("extend")
         if present:
             run.fault("extend_already_present")
@@ -455,6 +460,9 @@ def _wake(run, nid, tyme):
                 if run.st[i].entered == 0 and run.st[i].parent is None and run.objs[i] not in arg:
                     arg.append(run.objs[i])
                     break
+        if step.get("dup") and arg:
+            arg = arg + [arg[0]]
+            run.fault("remove_names_a_doer_twice")
         run.fault("remove")
         if me in arg:
             run.fault("remove_self")
